@@ -779,6 +779,19 @@ class ExprMixin:
                 for st1, r in self.call_function(st, fr, [b], {}, node):
                     yield st1, truth(self.as_value(r))
                 return
+        if isinstance(ta, TTuple) and isinstance(tb, TTuple) and len(ta.items) == len(tb.items):
+            # lexicographic order on tuples
+            xs, ys = tuple_items(a), tuple_items(b)
+            strict = isinstance(op, (ast.Lt, ast.Gt))
+            lt_op = ast.Lt() if isinstance(op, (ast.Lt, ast.LtE)) else ast.Gt()
+            res, prefix_eq = [], z3.BoolVal(True)
+            for x, y in zip(xs, ys):
+                (_, c_lt), = list(self.compare(st, lt_op, x, y, node))
+                (_, c_eq), = list(self.equals(st, x, y, node))
+                res.append(z3.And(prefix_eq, c_lt))
+                prefix_eq = z3.And(prefix_eq, c_eq)
+            yield st, z3.Or(*res) if strict else z3.Or(prefix_eq, *res)
+            return
         raise EngineError(f"ordering comparison on {ta} and {tb}: {ast.unparse(node)}")
 
     def identical(self, a: V, b: V):
